@@ -131,7 +131,7 @@ def run(rep, tier, replay=None):
     prog = facts.load("std")
     run_, oks, errs = decode_paths(prog, 14)
     owner_rule(rep, prog)
-    action_rule(rep, prog, oks)
+    tracker.alt_passes(rep, tier, oks, lambda: action_rule(rep, prog, oks))
     writer_rule(rep, prog)
     rep.assume("BTreeMap entry/or_default/get/retain behave as modelled in analysis/ai/sum_tracker.py; an existing record has arbitrary content")
     rep.assume("the history-level statement (exact counts over arbitrary interleavings) follows from the per-frame facts R1-R4 by induction over the history; the induction itself is not mechanised")
